@@ -403,9 +403,25 @@ func (cx *Ctx) paramDivisions(r *Report) {
 		if mod == "coinswap" {
 			ok1 := cx.validateBoundsFee(r)
 			ok2 := cx.callersHoldPositiveReserves(s.f)
-			r.check(ok1 && ok2, "params-division", key, pos,
-				"reviewed obligation: denominator (reserve·10^18 + amount·(1−fee)) or ((reserve_out − amount)·(1−fee)); Fee < 1 is enforced by Params.Validate and every caller holds the positive-reserve guards",
-				"reviewed obligation for the coinswap price denominator no longer holds (Fee<1 in Validate: "+fmt.Sprint(ok1)+"; positive-reserve guards at callers: "+fmt.Sprint(ok2)+")")
+			// the denominators are what the obligation says they are: the price functions
+			// equal the reference closed forms (C01's formula rules, re-run here)
+			if cx.c01Clean == nil {
+				sub := newReport("C01", r.Tier)
+				func() {
+					defer func() {
+						if e := recover(); e != nil {
+							sub.toolErr("C01 formula rules panicked: %v", e)
+						}
+					}()
+					runC01(cx, sub)
+				}()
+				clean := len(sub.Viols) == 0 && len(sub.ToolErrs) == 0
+				cx.c01Clean = &clean
+			}
+			ok3 := *cx.c01Clean
+			r.check(ok1 && ok2 && ok3, "params-division", key, pos,
+				"reviewed obligation: denominator (reserve·10^18 + amount·(1−fee)·10^18) or ((reserve_out − amount)·(1−fee)·10^18), established by the formula rules; Fee < 1 is enforced by Params.Validate and every caller holds the positive-reserve guards",
+				"reviewed obligation for the coinswap price denominator no longer holds (Fee<1 in Validate: "+fmt.Sprint(ok1)+"; positive-reserve guards at callers: "+fmt.Sprint(ok2)+"; price functions equal the reference closed forms with the fee at full precision: "+fmt.Sprint(ok3)+"): an accepted fee can make the denominator zero and the swap handler panic")
 			continue
 		}
 		r.violate("params-division", key, pos, "quotient "+s.name+" in "+shortFn(s.f)+" has a denominator derived from module parameters without a dominating non-zero guard or reviewed obligation")
